@@ -12,6 +12,7 @@ if [ -f tools/translate_keys.py ]; then python3 tools/translate_keys.py; fi
 if [ -f tools/translate_eq.py ]; then python3 tools/translate_eq.py; fi
 if [ -f tools/translate_scan.py ]; then python3 tools/translate_scan.py; fi
 if [ -f tools/translate_cursor.py ]; then python3 tools/translate_cursor.py; fi
+if [ -f tools/translate_ignore.py ]; then python3 tools/translate_ignore.py; fi
 if [ -f tools/translate_ptr.py ]; then python3 tools/translate_ptr.py; fi
 if [ -f tools/translate_map.py ]; then python3 tools/translate_map.py; fi
 if [ -f tools/translate_ser.py ]; then python3 tools/translate_ser.py; fi
